@@ -1,7 +1,7 @@
 ---------------------------- MODULE Gen_Dispatch ----------------------------
 (* Behaviour export: one JSON line per generated transition of the control *)
-(* skeleton (buffer kind, which slot carries which id and whether it is    *)
-(* live, default id, kind of fallback); tokens are symmetric.              *)
+(* skeleton (buffer kind, which slot is live with which id, largest id any  *)
+(* slot carries, default id, kind of fallback); tokens are symmetric.      *)
 EXTENDS Dispatch, Json
 CONSTANT MaxTok, MaxSlots
 VARIABLE hist
@@ -9,9 +9,11 @@ GenInit == Init /\ hist = <<obs>>
 GenNext == Next /\ hist' = Append(hist, obs')
 GenSpec == GenInit /\ [][GenNext]_<<vars, hist>>
 Bound == ntok <= MaxTok /\ Len(slots) <= MaxSlots
-Skel  == <<kind, [i \in DOMAIN slots |-> <<slots[i].id, slots[i].tok # 0>>], def,
-           IF err > 0 THEN 1 ELSE err>>
+Skel  == <<kind, [i \in DOMAIN slots |-> IF slots[i].tok # 0 THEN slots[i].id ELSE Zero],
+           MaxOfIds({slots[i].id : i \in DOMAIN slots}), def, IF err > 0 THEN 1 ELSE err>>
 Emit  == PrintT(<<"BEHAV", ToJson(hist')>>)
 CTexts == {<<103, 111>>, <<115, 116, 111, 112, 33>>}     \* "go", "stop!" (hash needs 64 bits)
-CHRs   == {<<0, 0>>, <<1, 0>>, <<1, 1>>, <<2, 0>>, <<3, 1>>, <<4, 0>>, <<-1, 0>>}
+CHRs   == {<<1, 0>>}                                  \* table shapes: one handler result
+CTexts1 == {<<103, 111>>}
+CHRsAll == {<<0, 0>>, <<0, 1>>, <<1, 0>>, <<1, 1>>, <<2, 0>>, <<3, 0>>, <<3, 1>>, <<4, 0>>, <<5, 1>>, <<6, 0>>, <<-1, 0>>, <<-1, 1>>}
 =============================================================================
